@@ -441,6 +441,39 @@ async def case_message(spec: dict[str, Any], ctx: Ctx) -> None:
         env.cleanup()
 
 
+async def case_pump(spec: dict[str, Any], ctx: Ctx) -> None:
+    """One header whose value is a pumped string (prefix + unit x n + tail),
+    enumerated, not drawn: APPEND, FETCH of what is computed from headers,
+    SEARCH over them."""
+    env = await make_env(spec['backend'], {'testuser': 'testpass'})
+    try:
+        conn = await open_conn(env, 'auth', 1)
+        assert conn is not None
+        value = gen.PUMP_PREFIXES[spec['p']] + \
+            gen.PUMP_UNITS[spec['u']] * spec['n'] + gen.PUMP_TAILS[spec['t']]
+        msg = b'X-VF-ID: c06\r\n' + gen.PUMP_HEADERS[spec['h']] + b': ' + \
+            value + b'\r\n\r\nbody\r\n'
+        res = await send_line(ctx, conn, b'ap APPEND INBOX ' + lit(msg) +
+                              b'\r\n', 'APPEND of %r' % msg[:400])
+        if res != 'answered':
+            return
+        ctx.count('pumped_messages')
+        for k, body in enumerate([
+                b'SELECT INBOX', b'FETCH 1 (ENVELOPE BODYSTRUCTURE)',
+                b'SEARCH SUBJECT x FROM y HEADER ' +
+                gen.PUMP_HEADERS[spec['h']] + b' z TEXT w']):
+            if conn.dead:
+                return
+            res = await send_line(
+                ctx, conn, b'm%d ' % k + body + b'\r\n',
+                '%r on stored message %r' % (body, msg[:300]))
+            if res == 'violation':
+                return
+            ctx.count('message_commands')
+    finally:
+        env.cleanup()
+
+
 async def script_lines(spec: dict[str, Any], ctx: Ctx) -> None:
     """Deterministic trigger: the given lines (latin-1) in the given state."""
     env = await make_env(spec.get('backend', 'dict'),
@@ -521,12 +554,23 @@ class C06(Check):
         'lines are kept below the 64 KiB StreamReader limit; TLS handshake '
         'is a no-op on the in-memory transport']
     floors = {'lines': 3000, 'answered': 2500, 'message_commands': 1000,
-              'sieve_lines': 300, 'canary': 100}
+              'sieve_lines': 300, 'canary': 100, 'pumped_messages': 1000}
     time_cap = {'quick': 90.0, 'thorough': 900.0}
 
     def cases(self, tier: str, seed: int) -> Iterable[dict[str, Any]]:
         n = 3000 if tier == "quick" else 60000
         rng = random.Random(seed * 7177 + 6)
+        # pumped header values, enumerated (the tail varies with the seed)
+        k = 0
+        for h in range(len(gen.PUMP_HEADERS)):
+            for p in range(len(gen.PUMP_PREFIXES)):
+                for u in range(len(gen.PUMP_UNITS)):
+                    k += 1
+                    for nn in ((40,) if tier == 'quick' else (30, 200)):
+                        yield {'kind': 'pump', 'h': h, 'p': p, 'u': u,
+                               'n': nn, 't': (k + seed) % len(gen.PUMP_TAILS),
+                               'backend': 'maildir' if k % 4 == 0 else 'dict',
+                               'seed': seed}
         for i in range(n):
             r = rng.random()
             s = seed * 1_000_003 + i
@@ -568,6 +612,7 @@ class C06(Check):
         ctx = Ctx()
         fn = {'lines': case_lines, 'message': case_message,
               'sieve': case_sieve, 'cross': case_cross,
+              'pump': case_pump,
               'script-lines': script_lines,
               'script-message': script_message}[
                   spec.get('kind') or 'script-' + spec['script']]
